@@ -21,6 +21,26 @@ needs = {
  "C14_B":"lone king against >= ~25041 of endgame material (nine queens, eight queens + two rooks, ...)",
  "C19_A":"random policy and a small weight sum (error is 1/(sum+1)); zero-weight move must be the last record of its key",
  "C19_B":"a record with weight >= 0x8000",
+ "C03_C":"a null move (null-move pruning in search) made and taken back at half-move clock >= 99",
+ "C03_D":"a promotion to a kind the side already owns, an older piece of that kind captured and restored inside the subtree, then the promotion undone (piece list order)",
+ "C04_C":"do_null_move() on a position whose en-passant square is set (null-move pruning at a node reached by a double pawn push)",
+ "C04_D":"a double pawn push on the h-file (or a FEN with en-passant square h3/h6); the defect is inside zobrist::init(), which the simulator only runs for real in zobrist mode 4",
+ "C05_C":"the PV of an iteration ends in a terminal node reached by search(): a mating move, stalemate, repetition, 50-move rule or bare kings",
+ "C05_D":"search interrupted (stop/time/nodes) at an odd ply while the best move of the last completed iteration is castling",
+ "C06_C":"a stop that arrives before depth 1 completes (the fallback branch prints with std::endl instead of sync_endl and keeps the output lock)",
+ "C06_D":"a stop that arrives while the search is inside a huge quiescence subtree (many heavy pieces attacking each other)",
+ "C07_C":"a single slider check with no king flight, no capture and no other interposition, parried only by a two-square pawn push",
+ "C07_D":"a promoting pawn captures an unmoved corner rook; later the same position recurs after that side's king has moved away and back",
+ "C08_C":"zugzwang with a mating threat two plies below the root for a side that still has a piece, remaining depth > 4, non-PV node (K+N v K+P, depth 7-9)",
+ "C08_D":"a double-step pawn check whose only evasion (or the mating move) is the en-passant capture of that pawn",
+ "C09_C":"an under-promotion in the searchmoves list whose queen twin is not also listed",
+ "C09_D":"two go commands on the same position with no position/moves/ucinewgame in between, the first one completed an iteration",
+ "C10_C":"a node with >= 64 legal moves, remaining depth > 3 and a late quiet move",
+ "C10_D":"castling legal somewhere in the search tree and not the PV/TT/killer move; only visible to an uninitialised-value detector (valgrind)",
+ "C14_C":"an earlier evaluation in which a piece shielded its king from an enemy slider, then a position where the opponent has no sliders and an own piece stands on that square",
+ "C14_D":"K+B+pawn(s) v K+B, not a hard-coded fortress, with the pawnless side to move",
+ "C19_C":"a book file in which one key's records are not adjacent (unsorted / concatenated books)",
+ "C19_D":"position ..., then `moves ...` or `ucinewgame`, then go with no new position command (stale cached book key)",
 }
 for d in sorted(glob.glob('/verif/seeded/*/')):
     n = os.path.basename(d.rstrip('/'))
@@ -32,7 +52,7 @@ for d in sorted(glob.glob('/verif/seeded/*/')):
     meta = {
         "id": n,
         "breaks_property": prop,
-        "origin": "independent sub-agent given only the property text and a scratch worktree (round 1)",
+        "origin": "independent sub-agent given only the property text and a scratch worktree (round %d)" % (1 if n[-1] in "AB" else 2),
         "needs_to_manifest": needs.get(n, ""),
         "confirmed_by_me": {
             "how": "tools/confirm_seeded.sh in the scratch worktree: with the patch the project builds with -Wall -Wextra -pedantic -Werror and ./_build/unitTests passes (47 tests); the demonstration (run_demo.sh) fails with the patch and passes without",
